@@ -1201,4 +1201,152 @@ theorem C04_frame_ilis_end_to_end (norm : String → String) (dr : Nat) (db db' 
     · rfl
 
 
+/-! ### the status filter of `ilis()` -/
+
+theorem filterMap_filter_opt {α β} (g g' : α → Option β) (q : β → Bool)
+    (h : ∀ a, g' a = (g a).filter q) : ∀ (L : List α), L.filterMap g' = (L.filterMap g).filter q := by
+  intro L
+  induction L with
+  | nil => rfl
+  | cons a t ih =>
+    simp only [List.filterMap_cons, h a]
+    cases hg : g a with
+    | none => simpa using ih
+    | some w =>
+      simp only [Option.filter, List.filter_cons]
+      cases hq : q w <;> simp [ih]
+
+/-- **`ilis(status=s)` is the sub-list of `ilis()` with status `s`** — on every database and for every
+selection, for every status name other than the empty string and `proposed` (proposed ILIs live in a table of
+their own and are listed after the stored ones) -/
+theorem C04_ilis_status_is_a_filter (db : Db) (S : List Nat) (st : String) (h1 : st ≠ "") (h2 : st ≠ "proposed") :
+    findIlis db none (some st) S = (findIlis db none none S).filter (fun i => i.status == st) := by
+  unfold findIlis
+  have e1 : ((some st : Option String) == some "proposed") = false := by simp [h2]
+  have e2 : (st != "") = true := by simp [h1]
+  have e3 : ((none : Option String) == some "proposed") = false := rfl
+  simp only [e1, e2, e3, Bool.false_eq_true, if_false, Bool.not_true, Bool.false_or, Bool.not_false, Bool.true_and,
+    Bool.true_or, Bool.and_true, Bool.or_false, Bool.and_false, if_true, List.append_nil, List.filter_append]
+  have hp : (db.pilis.filterMap (fun p =>
+      if (S.isEmpty || db.synsets.any (fun ss => ss.rowid == p.synset && S.contains ss.lex)) = true
+      then some (⟨none, "proposed", p.definition, p.rowid⟩ : IliData) else none)).filter (fun i => i.status == st) = [] := by
+    rw [List.filter_eq_nil_iff]
+    intro i hi
+    obtain ⟨p, _, hp⟩ := List.mem_filterMap.mp hi
+    split at hp
+    · simp only [Option.some.injEq] at hp
+      subst hp
+      simpa using fun e => h2 e.symm
+    · simp at hp
+  rw [hp, List.append_nil]
+  apply filterMap_filter_opt
+  intro i
+  cases hl : lookupName db.ilistatuses i.status with
+  | none => rfl
+  | some s0 =>
+    simp only [Option.filter]
+    generalize (S.isEmpty || db.synsets.any (fun ss => ss.ili == some i.rowid && S.contains ss.lex)) = c
+    cases c <;> by_cases hs : s0 = st <;> simp [hs]
+
+
+/-! ### frame for `senses(form)`: a plain lexicon added outside the selection changes no form look-up of senses -/
+
+/-- the form condition of every stored entry is untouched by the add of a plain lexicon -/
+theorem addLexicon_formMatch_frame (norm : String → String) (dr : Nat) (db db' : Db) (l : Doc.Lexicon)
+    (h : addLexicon norm dr db l = .ok db') (hplain : l.ext = none)
+    (hfkE : ∀ o ∈ db.entries, o.lex ∈ db.lexicons.map (·.rowid))
+    (hnE : (db.entries.map (·.rowid)).Nodup) (forms : List String) (n a : Bool) :
+    ∀ e ∈ db.entries, formMatch db' forms n a e.rowid = formMatch db forms n a e.rowid := by
+  obtain ⟨t⟩ := addLexicon_split norm dr db db' l h
+  obtain ⟨_, _, hlexid, hext⟩ := insertLexicon_frame _ _ _ _ _ t.hlex
+  have hlexid : t.lexid = nextId (db.lexicons.map (·.rowid)) := hlexid
+  have hlid : ∀ i, t.ctx.lid i = t.lexid := by
+    intro i
+    unfold Ctx.lid AddTrace.ctx
+    simp [hext hplain]
+  obtain ⟨hE, _, _⟩ := addLexicon_sense_table t
+  obtain ⟨_, _, g3⟩ := insertLexicon_frame2 _ _ _ _ _ t.hlex
+  have e2 := (keepsF_insertSynsets l _ _ _ t.hsyn).1
+  obtain ⟨erows, hEx⟩ : ∃ erows, db'.entries = db.entries ++ erows := by
+    have h3 := t.hent
+    unfold insertEntries at h3
+    obtain ⟨_, er, he, _⟩ := foldlM_rows1 (fun d => d.entries) (fun _ => ()) (entryStep t.ctx) (fun _ _ _ => True)
+      (fun b a b' hh => by
+        obtain ⟨r, hb, _⟩ := entryStep_ok _ b b' a hh
+        exact ⟨rfl, r, by rw [hb], trivial⟩) _ _ _ h3
+    exact ⟨er, by rw [hE, he, e2, g3]; rfl⟩
+  have hnE' : (db'.entries.map (·.rowid)).Nodup := by
+    rw [hE]
+    apply insertEntries_nodupE _ _ _ _ t.hent
+    rw [e2, g3]; exact hnE
+  obtain ⟨frows, hFx, hNF⟩ := addLexicon_forms_table' t
+  have hfresh : ∀ o ∈ db.entries, o.lex ≠ t.lexid := by
+    intro o ho e
+    have := hfkE o ho
+    rw [e, hlexid] at this
+    exact nextId_not_mem _ this
+  intro e he
+  unfold formMatch
+  rw [hFx]
+  apply any_append_false
+  intro r hr
+  obtain ⟨_, x, hx, hxr, i, hxl⟩ := hNF r hr
+  rw [hlid] at hxl
+  have : (r.entry == e.rowid) = false := by
+    cases hb : r.entry == e.rowid with
+    | false => rfl
+    | true =>
+      exfalso
+      have hre : r.entry = e.rowid := by simpa using hb
+      have : x = e := entries_eq_of_rowid _ hnE' x hx e (by rw [hEx]; exact List.mem_append_left _ he) (by rw [hxr, hre])
+      exact hfresh e he (by rw [← this]; exact hxl)
+  simp [this]
+
+/-- **C04, frame for `senses(form, …)`, end to end**: adding a plain lexicon outside a non-empty selection `S`
+leaves `senses()` restricted to `S` unchanged for any id, *any form query*, any part of speech -/
+theorem C04_frame_senses_forms_end_to_end (norm : String → String) (dr : Nat) (db db' : Db) (l : Doc.Lexicon)
+    (h : addLexicon norm dr db l = .ok db') (hplain : l.ext = none) (S : List Nat) (hS : S ≠ [])
+    (hout : nextId (db.lexicons.map (·.rowid)) ∉ S)
+    (hfkL : ∀ o ∈ db.entries, o.lex ∈ db.lexicons.map (·.rowid))
+    (hnE : (db.entries.map (·.rowid)).Nodup)
+    (hfkE : ∀ o ∈ db.senses, o.entry ∈ db.entries.map (·.rowid))
+    (hfkY : ∀ o ∈ db.senses, o.synset ∈ db.synsets.map (·.rowid))
+    (id : Option String) (forms : List String) (pos : Option String) (n a : Bool) :
+    findSenses db' id forms pos S n a = findSenses db id forms pos S n a := by
+  obtain ⟨t⟩ := addLexicon_split norm dr db db' l h
+  have hlexid : t.lexid = nextId (db.lexicons.map (·.rowid)) := (insertLexicon_frame _ _ _ _ _ t.hlex).2.2.1
+  obtain ⟨srows, hSn, hsnew, hsd⟩ := senseData_frame norm dr db db' l h t hfkE hfkY
+  have hfm := addLexicon_formMatch_frame norm dr db db' l h hplain hfkL hnE forms n a
+  obtain ⟨hE, _, _⟩ := addLexicon_sense_table t
+  obtain ⟨_, _, g3⟩ := insertLexicon_frame2 _ _ _ _ _ t.hlex
+  have e2 := (keepsF_insertSynsets l _ _ _ t.hsyn).1
+  obtain ⟨erows, hEx⟩ : ∃ erows, db'.entries = db.entries ++ erows := by
+    have h3 := t.hent
+    unfold insertEntries at h3
+    obtain ⟨_, er, he, _⟩ := foldlM_rows1 (fun d => d.entries) (fun _ => ()) (entryStep t.ctx) (fun _ _ _ => True)
+      (fun b a b' hh => by
+        obtain ⟨r, hb, _⟩ := entryStep_ok _ b b' a hh
+        exact ⟨rfl, r, by rw [hb], trivial⟩) _ _ _ h3
+    exact ⟨er, by rw [hE, he, e2, g3]; rfl⟩
+  have hEfind : ∀ o ∈ db.senses, db'.entries.find? (fun e => e.rowid == o.entry) = db.entries.find? (fun e => e.rowid == o.entry) := by
+    intro o ho
+    obtain ⟨e, he, her⟩ := List.mem_map.mp (hfkE o ho)
+    rw [hEx]; exact find?_append_of_exists _ _ _ ⟨e, he, by simp [her]⟩
+  unfold findSenses
+  rw [hSn]
+  apply frame_helper_fm
+  · intro r hr
+    have : inLexOrAll S r.lex = false := by
+      rw [hsnew r hr, hlexid]
+      have h1 := mem_inLexOrAll S hS (nextId (db.lexicons.map (·.rowid)))
+      cases hb : inLexOrAll S (nextId (db.lexicons.map (·.rowid))) with
+      | false => rfl
+      | true => exact absurd (h1.mp hb) hout
+    simp [this]
+  · intro o ho
+    obtain ⟨e, he, her⟩ := List.mem_map.mp (hfkE o ho)
+    rw [hEfind o ho, ← her, hfm e he]
+  · exact hsd
+
+
 end WnVerif.Props.C04
